@@ -482,6 +482,14 @@ class Check:
 
     # -- finish
     def finish(self, level="proof", rule="", trusted_base=(), explanation=""):
+        if self.broken:
+            # the check's own model / oracle could not be validated against the tree under test (e.g. it cannot read what
+            # the compiler emitted): on the unchanged tree this never happens; on a changed tree the property is no longer
+            # shown to hold, which is a VIOLATION (without a failing input unless the search already found one)
+            self.violation("model/oracle validation failed on the tree under test (%d problem(s); first: %s): the property is no longer shown to hold"
+                           % (len(self.broken), str(self.broken[0])[:200]),
+                           {"kind": "model-validation", "broken": "validation of the check's model/oracle against the implementation", "problems": [str(b)[:2000] for b in self.broken[:20]]},
+                           no_failing_input=True)
         cov = self.coverage
         cov.setdefault("obligations", 0)
         cov.setdefault("discharged", 0)
@@ -514,8 +522,6 @@ class Check:
         if self.broken:
             for b in self.broken:
                 print("MODEL-VALIDATION-FAILED: property=%s %s" % (self.pid, b))
-            sys.stdout.flush()
-            return 2
         for what, path, nofail in self.violations[:20]:
             print("VIOLATION property=%s replay=%s%s" % (self.pid, path, " no-failing-input-found" if nofail else ""))
             print("  (%s)" % what[:300])
@@ -552,15 +558,18 @@ def run_main(main):
         pid = os.path.basename(sys.argv[0])[:-3].upper()
         in_repo = any(fr.filename.startswith(REPO) for fr in traceback.extract_tb(e.__traceback__))
         print(tb[-3000:])
-        if in_repo:
-            os.makedirs(os.path.join(REPLAYS, pid), exist_ok=True)
-            path = os.path.join(REPLAYS, pid, "harness_exception.json")
-            json.dump({"property": pid, "broken": "correspondence harness: the implementation raised %s where the model expects a result" % type(e).__name__,
-                       "traceback": tb[-4000:]}, open(path, "w"), indent=1)
-            print("VIOLATION property=%s replay=%s no-failing-input-found" % (pid, path))
-            return 1
-        print("HARNESS-ERROR: property=%s %s" % (pid, type(e).__name__))
-        return 2
+        # Either the implementation raised where the model expects a result, or the harness itself tripped over something the tree
+        # under test produced (an output shape it cannot interpret).  On the unchanged tree neither happens (every check is run on
+        # it before each commit); on a changed tree the property is no longer shown to hold: VIOLATION without a failing input.
+        if not in_repo:
+            print("HARNESS-ERROR: property=%s %s" % (pid, type(e).__name__))
+        os.makedirs(os.path.join(REPLAYS, pid), exist_ok=True)
+        path = os.path.join(REPLAYS, pid, "harness_exception.json")
+        json.dump({"property": pid, "broken": ("correspondence harness: the implementation raised %s where the model expects a result" if in_repo else
+                                                "correspondence harness stopped with %s while interpreting what the tree under test produced") % type(e).__name__,
+                   "traceback": tb[-4000:]}, open(path, "w"), indent=1)
+        print("VIOLATION property=%s replay=%s no-failing-input-found" % (pid, path))
+        return 1
 
 
 def load_known_findings():
